@@ -12,6 +12,12 @@ Theorems (all audited on every run: propext, Classical.choice, Quot.sound only)
             C06_iknp_bits_corr (every n; /repo HEAD since 564d319), C06_iknp_bits_corr_eval,
             C06_iknp_bits_old_fails / _old_witness (about the named pre-fix
             definition `receiveBitsOld` only), C06_iknp_session
+  buffers   C06_iknp_transpose_into, C06_iknp_receive_buffer_independent,
+            C06_iknp_history_buffers (label form: every history, every content of the
+            caller-provided result buffers), C06_iknp_or_store_zero_buffer_ok /
+            C06_iknp_or_store_dirty_witness (about the named variant `Store.orInto` only),
+            C06_iknp_bits_dirty_partial / C06_iknp_bits_dirty_witness (packed-bit form
+            of /repo: ORs into the caller's words — known finding)
   COT/ROT   C06_cot_delivers, C06_rot_consistent, C06_cot_end_to_end, C06_rot_end_to_end
   CO        C06_co_masks_agree, C06_co_delivers (HEAD helpers `encryptO`/`decryptO`,
             incl. the on-curve checks of 68f93f2 / 0e7671a)
@@ -32,6 +38,7 @@ P-256 with SHA-256, compared byte for byte with Go).  RSA: every modulus and
 exponent pair satisfying the RSA key relation.
 -/
 import MpcVerif.Proofs.Iknp
+import MpcVerif.Proofs.IknpBuf
 import MpcVerif.Proofs.Cot
 import MpcVerif.Proofs.CoRsa
 
@@ -181,6 +188,163 @@ example : ∀ c ∈ [Call.labels true #[true, false, true] 0#128 0#128, Call.bit
   · trivial
   · show (64 + 63) / 64 ≤ (#[5#64] : Words).size
     decide
+
+/-! ### Caller-provided output buffers (Model/IknpBuf.lean)
+
+`Receive(b, result, malicious)` writes into the CALLER's `result`
+(`createLabels(result[ofs:], ..)`), `COT.Receive`/`ROT.Receive` pass their
+caller's slice through, `ReceiveBits`/`SendBits` set bits in the caller's
+words.  "Every call" includes every content of those buffers: fresh, the
+buffer of the previous call on the same pair, ones, random bytes, a window of
+a larger array. -/
+
+/-- `iknp_transpose`, destination side: `createLabels(l[ofs:], buf, w)` on ANY
+array `l` keeps its length, leaves every position outside
+`[ofs, ofs + min (8w) (len l - ofs))` as it was, and makes every position
+inside that range the transposed row — label `p - ofs` of the pure transpose
+`createLabels` of `C06_iknp_transpose`, which does not mention `l`: the code
+writes every destination position it is responsible for. -/
+theorem C06_iknp_transpose_into (l : Array Label) (ofs : Nat) (buf : Bytes) (w : Nat) :
+    (createLabelsAt Store.assign l ofs buf w).size = l.size ∧
+    ∀ p, p < l.size →
+      lgetA (createLabelsAt Store.assign l ofs buf w) p =
+        if ofs ≤ p ∧ p < ofs + min (w * 8) (l.size - ofs) then (createLabels (l.size - ofs) buf w).getD (p - ofs) 0#128
+        else lgetA l p := by
+  refine ⟨size_createLabelsAt .., fun p hp => ?_⟩
+  rw [lgetA_createLabelsAt _ _ _ _ _ _ hp]
+  split
+  · rw [getD_createLabels_row _ _ _ _ (by omega)]; rfl
+  · rfl
+
+/-- Non-vacuity / example: a dirty destination of 4 labels, written at offset 1. -/
+example : createLabelsAt Store.assign #[7#128, 7#128, 7#128, 7#128] 1 (mk 128 fun j => if j = 5 then 0x02#8 else 0#8) 1 =
+    #[7#128, 0#128, 1#128 <<< 69, 0#128] := by decide +kernel
+
+/-- The receiver's rows are independent of the initial content of the output
+buffer: for EVERY array `result` of the right length, `receive(b, result)`
+(and the malicious-mode `Receive(b, result, true)`) ends with the same stream
+state, the same chunks on the wire and exactly the labels of the pure model
+`receive` / `receiveMal` — the function `C06_iknp_label_corr`,
+`C06_iknp_label_corr_malicious`, `C06_iknp_session` and the COT/ROT theorems
+are about. -/
+theorem C06_iknp_receive_buffer_independent (R0 R1 : Nat → Nat → Byte) (st : RecvSt) (b : Array Bool)
+    (b0 b1 : Label) (result : Array Label) (hs : result.size = b.size) :
+    receiveAt Store.assign R0 R1 st b result =
+      some ((receive R0 R1 st b).1, (receive R0 R1 st b).2.1.toArray, (receive R0 R1 st b).2.2) ∧
+    receiveMalAt Store.assign R0 R1 st b b0 b1 result =
+      some ((receiveMal R0 R1 st b b0 b1).1, (receiveMal R0 R1 st b b0 b1).2.1.toArray,
+        (receiveMal R0 R1 st b b0 b1).2.2) :=
+  ⟨receiveAt_assign R0 R1 st b result hs, receiveMalAt_assign R0 R1 st b b0 b1 result hs⟩
+
+example : (#[5#128, 6#128] : Array Label).size = (#[true, false] : Array Bool).size := rfl
+
+/-- The variant that ORs the transposed bits straight into the destination
+(`Store.orInto`) is indistinguishable on a zeroed buffer ... -/
+theorem C06_iknp_or_store_zero_buffer_ok (R0 R1 : Nat → Nat → Byte) (st : RecvSt) (b : Array Bool) :
+    receiveAt Store.orInto R0 R1 st b (zerosL b.size) = receiveAt Store.assign R0 R1 st b (zerosL b.size) :=
+  receiveAt_orInto_zeros R0 R1 st b
+
+example : (receiveAt Store.orInto (fun _ _ => 0#8) (fun _ _ => 0#8) RecvSt.init #[true] (zerosL 1)).map
+    (fun r => (r.2.1, r.2.2)) = some (#[0#128], [mk 128 fun _ => 1#8]) := by decide +kernel
+
+/-- ... and wrong on a buffer that is not zero (negation witness for the
+OR-accumulating transposition): one transfer, zero streams, choice 0, a result
+slice holding `1` — the sender ends with label 0, the receiver with label 1,
+`received_0 ≠ sent_0 xor 0*Delta`. -/
+theorem C06_iknp_or_store_dirty_witness :
+    (runCallB Store.orInto (fun _ _ => 0#8) (fun _ _ => 0#8) (fun _ _ => 0#8) 0#128 RecvSt.init SendSt.init
+        ⟨#[1#128], #[], #[]⟩ (.labels false #[false] 0#128 0#128 (.arena none 0 0))).map
+      (fun r => (r.2.2.2.1.out.sentL, r.2.2.2.1.out.rcvdL)) = some ([0#128], [1#128]) ∧
+    ∀ r, runCallB Store.orInto (fun _ _ => 0#8) (fun _ _ => 0#8) (fun _ _ => 0#8) 0#128 RecvSt.init SendSt.init
+        ⟨#[1#128], #[], #[]⟩ (.labels false #[false] 0#128 0#128 (.arena none 0 0)) = some r →
+      ¬ CallSpecB 0#128 (.labels false #[false] 0#128 0#128 (.arena none 0 0)) r.2.2.2.1 := by
+  have h : (runCallB Store.orInto (fun _ _ => 0#8) (fun _ _ => 0#8) (fun _ _ => 0#8) 0#128 RecvSt.init SendSt.init
+        ⟨#[1#128], #[], #[]⟩ (.labels false #[false] 0#128 0#128 (.arena none 0 0))).map
+      (fun r => (r.2.2.2.1.out.sentL, r.2.2.2.1.out.rcvdL)) = some ([0#128], [1#128]) := by decide +kernel
+  refine ⟨h, ?_⟩
+  intro r hr hspec
+  rw [hr] at h
+  simp only [Option.map_some, Option.some.injEq, Prod.mk.injEq] at h
+  have := hspec.2.2 0 (by decide)
+  rw [h.1, h.2] at this
+  revert this
+  decide
+
+/-- Histories with named buffers, label form at full strength: for every
+history of calls on one initialised pair in which every call names where its
+output goes — a fresh allocation, or a slice at any offset of the party's
+long-lived array, either as the earlier calls left it or overwritten with
+ARBITRARY content first — the history runs to completion (no error, no panic,
+every chunk consumed, streams in step), and every label-form call (both
+adversary modes) delivers `received_i = sent_i xor choice_i*Delta` at every
+position of the receiver's slice.  The packed-bit calls are in the same
+histories with the partial specification of `CallSpecB` (see
+`C06_iknp_bits_dirty_partial`). -/
+theorem C06_iknp_history_buffers (R0 R1 SS : Nat → Nat → Byte) (delta : Label) (hb : BaseOK R0 R1 SS delta)
+    (SL SW : Nat) (ar : Arena) (har : ar.Sized SL SW) (cs : List CallB) (hwf : ∀ c ∈ cs, c.WF SL SW) :
+    ∃ outs, sessionB Store.assign R0 R1 SS delta RecvSt.init SendSt.init ar cs = some outs ∧
+      outs.length = cs.length ∧
+      ∀ k (hk : k < cs.length) (hk' : k < outs.length), CallSpecB delta cs[k] outs[k] :=
+  sessionB_ok R0 R1 SS delta hb SL SW cs _ _ ar InStep.init har hwf
+
+/-- Non-vacuity: a history that reuses the receiver's array (second call into
+the slice the first call wrote, third into a window of an array of ones). -/
+example : (Arena.mk (zerosL 4) (zerosW 2) (zerosW 2)).Sized 4 2 ∧
+    ∀ c ∈ [CallB.labels false #[true, false, true] 0#128 0#128 (.arena none 0 0),
+           CallB.labels true #[false, true] 0#128 0#128 (.arena none 1 0),
+           CallB.labels false #[true] 0#128 0#128 (.arena (some (mk 4 fun _ => BitVec.allOnes 128)) 3 0),
+           CallB.bits 64 #[5#64] (.arena none 1 0) .fresh], c.WF 4 2 := by
+  refine ⟨⟨by simp [zerosL], by simp [zerosW], by simp [zerosW]⟩, ?_⟩
+  intro c hc
+  simp only [List.mem_cons, List.mem_nil_iff, or_false] at hc
+  rcases hc with rfl | rfl | rfl | rfl
+  all_goals simp [CallB.WF, BufSrc.WF]
+
+/-- Packed-bit form on caller buffers with ARBITRARY content — PARTIAL.
+FULL STATEMENT (what the doc comments of `SendBits` / `ReceiveBits` promise:
+"Existing contents are overwritten"), NOT provable because false
+(`C06_iknp_bits_dirty_witness`):
+
+    ∀ rwin swin, … → ∀ j < n, bitAt rw j = (bitAt sw j ^^ (Delta.Bit(0) && choice_j))
+
+Proved: no error branch, streams in step, and both buffers end as their OLD
+content OR the outputs `rw0`, `sw0` of the same call on zeroed buffers, which
+do satisfy the correlation; so the correlation holds at every position whose
+bit was clear in both buffers before the call. -/
+theorem C06_iknp_bits_dirty_partial (R0 R1 SS : Nat → Nat → Byte) (delta : Label) (hb : BaseOK R0 R1 SS delta)
+    (rs : RecvSt) (ss : SendSt) (hs : InStep rs ss) (choices : Words) (n : Nat)
+    (hch : (n + 63) / 64 ≤ choices.size) (rwin swin : Words)
+    (hr : (n + 63) / 64 ≤ rwin.size) (hsw : (n + 63) / 64 ≤ swin.size) :
+    ∃ rs' ss' rw sw msgs rw0 sw0,
+      receiveBits R0 R1 rs choices rwin n = some (rs', rw, msgs) ∧
+      sendBits SS delta ss n swin msgs = some (ss', sw, []) ∧
+      InStep rs' ss' ∧
+      (∀ j, j < n → bitAt rw0 j = (bitAt sw0 j ^^ (labelBit delta 0 && bitAt choices j))) ∧
+      (∀ j, bitAt rw j = (bitAt rwin j || bitAt rw0 j)) ∧ (∀ j, bitAt sw j = (bitAt swin j || bitAt sw0 j)) ∧
+      ∀ j, j < n → bitAt rwin j = false → bitAt swin j = false →
+        bitAt rw j = (bitAt sw j ^^ (labelBit delta 0 && bitAt choices j)) := by
+  obtain ⟨rs', ss', rw, sw, msgs, rw0, sw0, g1, g2, g3, g4, _, g6, g7⟩ :=
+    bits_call_dirty R0 R1 SS delta hb rs ss hs choices n hch rwin swin hr hsw
+  refine ⟨rs', ss', rw, sw, msgs, rw0, sw0, g1, g2, g3, g4, g6.2, g7.2, ?_⟩
+  intro j hj hrz hsz
+  rw [g6.2 j, g7.2 j, hrz, hsz, Bool.false_or, Bool.false_or]
+  exact g4 j hj
+
+example : (3 + 63) / 64 ≤ (#[0xffff#64, 1#64] : Words).size ∧ (3 + 63) / 64 ≤ (#[5#64] : Words).size := by decide
+
+/-- Negation witness for the code of /repo (packed-bit form, receiver's buffer
+not zero): one transfer, zero streams, choice 0, the receiver's result word
+holding `1`: the sender's bit is 0, the receiver's bit stays 1. -/
+theorem C06_iknp_bits_dirty_witness :
+    (runCallB Store.assign (fun _ _ => 0#8) (fun _ _ => 0#8) (fun _ _ => 0#8) 0#128 RecvSt.init SendSt.init
+        ⟨#[], #[1#64], #[]⟩ (.bits 1 #[0#64] (.arena none 0 0) .fresh)).map
+      (fun r => (r.2.2.2.1.out.sentW, r.2.2.2.1.out.rcvdW)) = some (#[0#64], #[1#64]) ∧
+    ¬ (∀ j, j < 1 → bitAt #[1#64] j = (bitAt #[0#64] j ^^ (labelBit 0#128 0 && bitAt #[0#64] j))) := by
+  refine ⟨by decide +kernel, ?_⟩
+  intro h
+  have := h 0 (by decide)
+  revert this
+  decide
 
 /-! ## COT / ROT over IKNP with MITCCRH -/
 
